@@ -237,3 +237,41 @@ Proof.
   cbn [reason_string]; apply prefixed_some; auto.
 Qed.
 End MacStrings.
+
+(* ------------------------------------------------------------------ str::parse::<u32>, exactly *)
+Lemma digits_value_inv s : forall acc n, 0 <= acc <= 4294967295 -> digits_value acc s = Some n ->
+  forallb is_digit s = true /\ n = fold_left dec_step s acc /\ 0 <= n <= 4294967295.
+Proof.
+  induction s as [|b s IH]; intros acc n Hacc H; cbn [digits_value] in H.
+  - inversion H; subst. cbn [forallb fold_left]. repeat split; lia.
+  - destruct (is_digit b) eqn:Hb; [|discriminate]. pose proof (is_digit_range b Hb) as Hr.
+    fold (dec_step acc b) in H. destruct (dec_step acc b <=? 4294967295) eqn:E; [|discriminate].
+    apply Z.leb_le in E. destruct (IH (dec_step acc b) n ltac:(unfold dec_step in *; lia) H) as (A & B & C).
+    cbn [forallb fold_left]. rewrite Hb, A. repeat split; try assumption; lia.
+Qed.
+
+Definition unsigned_body (s : list Z) : list Z := match s with 43 :: r => r | _ => s end.
+Lemma parse_u32_spec s n :
+  parse_u32 s = Some n <->
+  unsigned_body s <> [] /\ forallb is_digit (unsigned_body s) = true /\
+  dec_value (unsigned_body s) = n /\ n <= 4294967295.
+Proof.
+  unfold parse_u32. fold (unsigned_body s). split.
+  - intro H. destruct (unsigned_body s) as [|b r] eqn:E; [discriminate|].
+    destruct (digits_value_inv (b :: r) 0 n ltac:(lia) H) as (A & B & C).
+    split; [discriminate|]. split; [exact A|]. split; [symmetry; exact B|lia].
+  - intros (Hne & Hd & Hv & Hle). destruct (unsigned_body s) as [|b r] eqn:E; [congruence|].
+    rewrite (digits_value_spec (b :: r) 0 ltac:(lia) Hd). fold (dec_value (b :: r)). rewrite Hv.
+    destruct (n <=? 4294967295) eqn:L; [reflexivity|apply Z.leb_gt in L; lia].
+Qed.
+
+(* the general form of c14_status_pid: ANY first line with the key (blanks, quotes, sign included) decides *)
+Lemma status_pid_first_line pre line post v :
+  (forall l b, In l (pre ++ line :: post) -> In b l -> b <> 10) ->
+  (forall l k w, In l pre -> kv_of_line l = Some (k, w) -> zlist_eqb k KEY_PID = false) ->
+  kv_of_line line = Some (KEY_PID, v) ->
+  status_pid (join_lines (pre ++ line :: post)) = match parse_u32 v with Some n => n | None => 0 end.
+Proof.
+  intros Hnl Hpre Hline. unfold status_pid. rewrite split_join; [|destruct pre; discriminate|exact Hnl].
+  apply pid_of_lines_first; assumption.
+Qed.
